@@ -5,6 +5,8 @@ and a generator of random databases in the fragment the toolkit supports togethe
 Written from the Metamath book, independently of /repo's code."""
 from __future__ import annotations
 
+import re
+
 from . import sx  # noqa: F401
 
 
@@ -14,7 +16,9 @@ from . import sx  # noqa: F401
 
 def tokenize(src):
     out, i, n = [], 0, len(src)
-    toks = src.split()
+    # white space is space, tab, carriage return, line feed, form feed (Metamath book, 4.1.1) — not `str.split()`, which also splits
+    # at U+000B, U+001C..U+001F, U+0085, U+00A0, ...
+    toks = [t for t in re.split(r'[ \t\n\f\r]+', src) if t]
     k = 0
     res = []
     while k < len(toks):
